@@ -19,6 +19,7 @@ structure Mon where
   lists : List (Nat × List Nat) := []
   bits : List (Nat × List Bool) := []
   strs : List (Nat × List Nat) := []
+  pooled : Nat := 0
   deriving Inhabited
 
 abbrev KV := List (String × String)
@@ -92,7 +93,7 @@ def vecMon (mon : Mon) (id : Nat) (w : List String) (st : String) (a : KV) : Mon
   let op := w.getD 2 ""
   -- expected status / new list / expected r
   let pre : Bool := match op with
-    | "insert" => x > l.length | "remove_at" => x ≥ l.length | "pop" => l.isEmpty | _ => false
+    | "insert" => x > l.length | "remove_at" => x ≥ l.length | "pop" => l.isEmpty | "first_last" => l.isEmpty | _ => false
   if pre then (if st == "precond" then good mon else bad mon s!"V{id} {op}: precondition answer expected, got {st}") else
   if st == "oom" then
     (if (op == "reserve_fit" ∨ op == "reserve_grow" ∨ op == "reserve_add" ∨ op == "resize_fit" ∨ op == "resize_grow") ∧ big x
@@ -122,6 +123,8 @@ def vecMon (mon : Mon) (id : Nat) (w : List String) (st : String) (a : KV) : Mon
     | "index_of" => (mon, l, some (firstIdx l xv))
     | "last_index_of" => (mon, l, some (lastIdx l xv))
     | "contains" => (mon, l, some (if l.contains xv then "1" else "0"))
+    | "first_last" => (mon, l, some s!"{l.headD 0},{l.getLastD 0}")
+    | "span_eq" => (mon, l, some (if l == (alGet mon.vecs x).getD [] then "1" else "0"))
     | _ => (mon, l, none)
   let mon := { mon with vecs := alSet mon.vecs id l' }
   if (op == "reserve_fit" ∨ op == "reserve_grow") ∧ kvN a "cap" < x then bad mon s!"V{id} {op} {x}: ok but capacity {kvN a "cap"}" else
@@ -130,6 +133,9 @@ def vecMon (mon : Mon) (id : Nat) (w : List String) (st : String) (a : KV) : Mon
   if !sameList a "" l' then bad mon s!"V{id} {op}: contents differ from the textbook list {l'.take 20}" else
   if kvN a "cap" < kvN a "n" then bad mon s!"V{id}: capacity < size" else
   if r.isSome ∧ kv a "r" ≠ r then bad mon s!"V{id} {op} {xv}: answered {kv a "r"}, textbook {r}" else
+  if (kv a "spanswap").isSome then bad mon s!"V{id}: Span::swap did not exchange the two views" else
+  if op == "iter" ∧ !sameList a "r:" l' then bad mon s!"V{id} iterate(): not the items in order" else
+  if op == "riter" ∧ !sameList a "r:" l'.reverse then bad mon s!"V{id} iterate_reverse(): not the items in reverse order" else
   match regionStep mon s!"V{id}" a with
   | (mon, some why) => bad mon why
   | (mon, none) => good mon
@@ -244,6 +250,10 @@ def treeMon (mon : Mon) (id : Nat) (w : List String) (st : String) (a : KV) : Mo
   match shape with
   | some why => bad mon s!"T{id} after {op} {k}: {why}"
   | none =>
+  let mon := match kv a "node", kv a "freed" with
+    | some _, _ => { mon with pooled := mon.pooled - 1 }      -- a node was taken (from the pool if it held one)
+    | none, some _ => { mon with pooled := mon.pooled + 1 }
+    | none, none => mon
   let (mon, e1) := match kv a "node", kv a "freed" with
     | some loc, _ => setRegion mon s!"T:{loc}" loc 24
     | none, some loc => setRegion mon s!"T:{loc}" "none" 0
@@ -446,10 +456,24 @@ def strMon (mon : Mon) (id : Nat) (w : List String) (st : String) (a : KV) : Mon
   if op == "eq" ∧ kv a "r" ≠ some (if l == bs then "1" else "0") then bad mon s!"S{id} eq: wrong answer" else
   good mon
 
+/-! ### ArenaString -/
+def astrMon (mon : Mon) (id : Nat) (w : List String) (st : String) (a : KV) : Mon × String :=
+  let op := w.getD 2 ""
+  let bs := if op == "set" then (hexBytes? (w.getD 3 "")).getD [] else []
+  if st != "ok" then bad mon s!"Z{id} {op}: status {st}" else
+  let whole := kvN a "whole"
+  if kvN a "n" ≠ bs.length then bad mon s!"Z{id} {op}: size {kvN a "n"}, textbook string has {bs.length}" else
+  if kv a "s" ≠ some (if bs.isEmpty then "-" else bytesHex bs) then bad mon s!"Z{id} {op}: contents differ from the textbook string" else
+  if kv a "nul" == some "0" then bad mon s!"Z{id} {op}: not null terminated" else
+  if (kv a "emb" == some "1") ≠ (bs.length ≤ whole - 5) then bad mon s!"Z{id} {op}: embedded/external choice does not match the object size" else
+  match regionStep mon s!"Z{id}" a with
+  | (mon, some why) => bad mon why
+  | (mon, none) => good mon
+
 /-! ### arena -/
 def arenaMon (mon : Mon) (w : List String) (st : String) (a : KV) : Mon × String :=
   match w.getD 1 "" with
-  | "new" | "reset" => ({ mon with regions := [], vecs := [], hashes := [], trees := [], lists := [], bits := [] }, "good")
+  | "new" | "reset" => ({ mon with regions := [], vecs := [], hashes := [], trees := [], lists := [], bits := [], pooled := 0 }, "good")
   | "one" =>
     if st == "null" then (if big (nat (w.getD 2 "0")) then good mon else bad mon "A one: spurious null") else
     match kv a "loc" with
@@ -467,6 +491,22 @@ def arenaMon (mon : Mon) (w : List String) (st : String) (a : KV) : Mon × Strin
   | "put" => match regionStep mon s!"A{nat (w.getD 2 "0")}" a with
     | (mon, some why) => bad mon why
     | (mon, none) => good mon
+  | "dup" =>
+    let bs := ((Driver.hexToBytes? (w.getD 2 "")).map (·.map (·.toNat))).getD []
+    let nt := if w.getD 3 "" == "1" then 1 else 0
+    if st == "null" then (if bs.isEmpty then good mon else bad mon "A dup: spurious null") else
+    if bs.isEmpty then bad mon "A dup: empty input must give nullptr" else
+    if kvN a "bytes" < bs.length + nt ∨ kvN a "bytes" % 8 ≠ 0 then bad mon "A dup: block too small or unaligned size" else
+    if kv a "s" ≠ some (String.ofList (bs.flatMap fun b => [Driver.hexChar (b / 16 % 16), Driver.hexChar (b % 16)])) then bad mon "A dup: copy differs from the input" else
+    if kv a "pad0" ≠ some "1" then bad mon "A dup: padding / terminator not zero" else
+    (match kv a "loc" with
+     | some loc => match setRegion mon s!"dup:{loc}" loc (kvN a "bytes") with
+       | (mon, some why) => bad mon why
+       | (mon, none) => good mon
+     | none => bad mon "A dup: no location")
+  | "pool" =>
+    let mon := if w.getD 2 "" == "reset" then { mon with pooled := 0 } else mon
+    if kvN a "r" ≠ mon.pooled then bad mon s!"A pool: pooled_item_count() = {kvN a "r"}, textbook stack holds {mon.pooled}" else good mon
   | "stats" =>
     if kvN a "used" > kvN a "reserved" then bad mon "A stats: used > reserved" else good mon
   | _ => good mon
@@ -493,6 +533,7 @@ def monStep (mon : Mon) (line : String) : Mon × String :=
       | "L" => listMon mon id w st a
       | "B" => bitsMon mon id w st a
       | "S" => strMon mon id w st a
+      | "Z" => astrMon mon id w st a
       | _ => good mon
     | _ => good mon
   | _ => (mon, "bad-op")
